@@ -127,7 +127,7 @@ func (m *MemoryInstance) ReadUint16Le(offset uint32) (uint16, bool) {
 	if !m.hasSize(offset, 2) {
 		return 0, false
 	}
-	return binary.LittleEndian.Uint16(m.Buffer[offset : offset+2]), true
+	return binary.LittleEndian.Uint16(m.Buffer[offset:][:2]), true
 }
 
 // ReadUint32Le implements the same method as documented on api.Memory.
@@ -163,7 +163,8 @@ func (m *MemoryInstance) Read(offset, byteCount uint32) ([]byte, bool) {
 	if !m.hasSize(offset, uint64(byteCount)) {
 		return nil, false
 	}
-	return m.Buffer[offset : offset+byteCount : offset+byteCount], true
+	// Note: offset+byteCount wraps to zero in uint32 when the range ends exactly at 4GiB.
+	return m.Buffer[offset:][:byteCount:byteCount], true
 }
 
 // WriteByte implements the same method as documented on api.Memory.
@@ -343,7 +344,7 @@ func (m *MemoryInstance) readUint32Le(offset uint32) (uint32, bool) {
 	if !m.hasSize(offset, 4) {
 		return 0, false
 	}
-	return binary.LittleEndian.Uint32(m.Buffer[offset : offset+4]), true
+	return binary.LittleEndian.Uint32(m.Buffer[offset:][:4]), true
 }
 
 // readUint64Le implements ReadUint64Le without using a context. This is extracted as both ints and floats are stored in
@@ -352,7 +353,7 @@ func (m *MemoryInstance) readUint64Le(offset uint32) (uint64, bool) {
 	if !m.hasSize(offset, 8) {
 		return 0, false
 	}
-	return binary.LittleEndian.Uint64(m.Buffer[offset : offset+8]), true
+	return binary.LittleEndian.Uint64(m.Buffer[offset:][:8]), true
 }
 
 // writeUint32Le implements WriteUint32Le without using a context. This is extracted as both ints and floats are stored
